@@ -278,11 +278,17 @@ class Walker:
     def _s_Assign(self, s, cur):
         if isinstance(s.value, ast.IfExp):
             return self._fork_ifexp(s, s.value, lambda v: ast.copy_location(ast.Assign(targets=s.targets, value=v, lineno=s.lineno), s), cur)
-        # evaluation order: value first, then target sub-expressions
+        # evaluation order: value first, then target sub-expressions, then the store itself
         tgt_exprs = []
         for t in s.targets:
             tgt_exprs.extend(self._target_exprs(t))
-        return self._simple(s, [s.value] + tgt_exprs, cur)
+        outs = [([], NORMAL)]
+        for e in [s.value] + tgt_exprs:
+            outs = self._seq(outs, lambda e=e: self._expr(e, cur=cur))
+        for t in s.targets:
+            if isinstance(t, ast.Subscript) and self.raises is not None and list(self.raises(t, self.f)):
+                outs = self._seq(outs, lambda t=t: self._src(t))
+        return self._seq(outs, lambda: [([Ev("stmt", s)], NORMAL)])
 
     def _target_exprs(self, t):
         if isinstance(t, ast.Subscript):
